@@ -1,19 +1,5 @@
 package hotline
 
-// vRecConn records every Write call separately (each call is atomic on a TCP connection; calls from different
-// goroutines may interleave between calls).
-type vRecConn struct {
-	writes [][]byte
-	closed int
-}
-
-func (c *vRecConn) Read(p []byte) (int, error) { return 0, vErr{} }
-func (c *vRecConn) Write(p []byte) (int, error) {
-	c.writes = append(c.writes, append([]byte(nil), p...))
-	return len(p), nil
-}
-func (c *vRecConn) Close() error { c.closed++; return nil }
-
 // One transaction = one Write on the client's connection, whatever its size (so concurrent senders cannot
 // interleave bytes of two transactions), and the bytes written are exactly the frame.
 func VH_C14_OneWritePerTransaction() {
